@@ -455,6 +455,51 @@ class SolvePermuted(Stream):
         return CliVariants.shrink(self, case)
 
 
+class PageOrder(Stream):
+    """an index page lists its files in whatever order the server likes: the set of files offered from it must not
+    depend on that order (pages generated as for C14: wheels, source archives, other files, with and without
+    requires-python declarations, odd markup)"""
+    name = "page-order"
+    quick_n = 800
+    thorough_n = 40000
+    batch = 200
+
+    def setup(self):
+        from rv.props.c14 import PageStream
+        self.inner = PageStream()
+
+    def generate(self, rng):
+        case = self.inner.generate(rng)
+        perm = list(range(len(case["anchors"])))
+        rng.shuffle(perm)
+        case["perm"] = perm
+        return case
+
+    def impl(self, case):
+        a = self.inner.impl({"anchors": case["anchors"]})
+        b = self.inner.impl({"anchors": [case["anchors"][i] for i in case["perm"]]})
+        canon = lambda r: r if "error" in r else sorted(map(lambda o: [o[0], o[1]], r["offered"]))
+        return {"listed": canon(a), "permuted": canon(b)}
+
+    def flags(self, case, r):
+        fl = []
+        if any(a["rp"] for a in case["anchors"]) and any(not a["rp"] for a in case["anchors"]):
+            fl.append("some-anchors-declare-requires-python-some-do-not")
+        if case["perm"] != sorted(case["perm"]):
+            fl.append("permuted")
+        return fl
+
+    def oracle(self, case, r):
+        if r["listed"] != r["permuted"]:
+            return [("C07/index-page-order-changes-the-offer", {"listed": r["listed"], "permuted": r["permuted"]})]
+        return []
+
+    def shrink(self, case):
+        n = len(case["anchors"])
+        for i in range(n):
+            yield {"anchors": case["anchors"][:i] + case["anchors"][i + 1:], "perm": [p - (1 if p > i else 0) for p in case["perm"] if p != i]}
+
+
 def directed(disagreements):
     """failing-input search: a universe on which the real solver and the solver model differ is run through the real
     command line under several hash seeds, listings and histories (the differences a model cannot exhibit)"""
@@ -470,4 +515,4 @@ def directed(disagreements):
 
 
 def streams():
-    return [SortKeys(), CliVariants(), SolvePermuted()]
+    return [SortKeys(), CliVariants(), SolvePermuted(), PageOrder()]
